@@ -18,9 +18,9 @@ def suites(tier):
     q = tier == "quick"
     jobs = []
     for key in ("", "k1"):
-        cfg = dict(headers=2 if q else 3, body=3 if q else 4, chunk=3 if q else 5)
+        cfg = dict(headers=2 if q else 4, body=3 if q else 5, chunk=3 if q else 5)
         jobs.append(dict(id="http:key=%s" % (key or "none"), func="zzH_C16_http", cfg=cfg, cfgs=dict(key=key)))
     for i, key in enumerate(("", "k1", " ", "k1 ")):
         jobs.append(dict(id="start:key%d" % i, func="zzH_C16_start", cfg={}, cfgs={"env:FZF_API_KEY": key}, go_inline=True))
-    jobs.append(dict(id="addr", func="zzH_C16_addr", cfg=dict(nmax=4 if q else 6)))
+    jobs.append(dict(id="addr", func="zzH_C16_addr", cfg=dict(nmax=4 if q else 7)))
     return [src_suite("src", jobs)]
